@@ -49,6 +49,11 @@ R = {
  "C15b-encode-session-keyed-by-hash-only": ("C15", ["C15 quick: VIOLATION (fresh interner: decode panicked: referenced interned value not found)"],
    "missed at first: no generated structure held handles of two types with equal hash streams and equal contents. `Interned<str>` now draws from the texts of the `Interned<String>` handles, and `Interned<u32>` / `Interned<Wrap(u32)>` were added to the structure."),
  "C16b-poll-trim-stops-at-pinned-tail": ("C16", ["C16 quick: VIOLATION (22 s, quiescent residency bound under Poll)"], "caught as built (second change for C16; relies on the pinned writes and the longer quiescent phase added for the first one)"),
+ "C01c-unordered-group-skipped-when-edges-clean": ("C01", ["C01 quick: VIOLATION (46 s, projection handed a stale projection)", "C03 quick: VIOLATION (14 s)"], "caught as built (third change for C01)"),
+ "C05c-publish-block-without-computation-guard": ("C05", ["C05 quick: VIOLATION (regression replay fixed-c05-guarded-publish-outlives-computation-guard.json fails again)"], "caught as built: the change takes back part of fix 4e17f51, whose regression replay is re-run by every C05 run"),
+ "C09c-remove-after-write-in-same-batch-drops-entry": ("C09", ["C09 quick: VIOLATION (38 s)"], "caught as built (third change for C09)"),
+ "C12c-vec-decode-length-clamped": ("C12", ["C12 quick: VIOLATION (Vec<u8> of length 65537 decoded with length 65536)"],
+   "missed at first: generated sequences are short. 14 sequence/map/string types are now enumerated at the lengths where the length prefix changes its width and around 2^16 and 2^21, each followed by a sentinel."),
 }
 rows = []
 for sid, (prop, ran, note) in R.items():
